@@ -9,7 +9,7 @@ from vlib import pspec, ref
 from vlib.runner import Violation, sut
 
 ID = "C14"
-BUDGET = {"quick": 4800, "thorough": 80000}
+BUDGET = {"quick": 4800, "thorough": 240000}
 RULE = ("Generated: shape-directed random parameter graphs (depth <= 4, rank 1..3, dims 1..4) over every "
         "symbolic parameter node type, with every axis in -rank..rank-1, repeated / unordered indices, "
         "references, constants, real and complex tensors; optionally 2..4 graphs of equal output shape "
